@@ -52,7 +52,8 @@ public:
   [[nodiscard]] bool operator!=(const SyntaxTree& t2) const { return !(*this == t2); }
 
   //! Normalize syntax tree
-  void Normalize(SyntaxTreeContext termFuncs);
+  /// Returns false if nesting of the normalized tree exceeds the limit - such tree should not be evaluated
+  bool Normalize(SyntaxTreeContext termFuncs);
 
 
 public:
